@@ -85,12 +85,12 @@ func (e *Engine) verifyAll(keys []string, prop string, cfg solveCfg, sel func(o 
 	for i, k := range keys {
 		con := e.contracts.M[k]
 		fn := e.funcs[k]
-		if fn == nil {
-			results[i] = &FuncResult{Fn: k, Short: shortFuncName(k), OutOfSub: "function not found in the loaded program (contract cannot be bound)"}
-			continue
-		}
 		if con.Trusted {
 			results[i] = &FuncResult{Fn: k, Short: shortFuncName(k), Trusted: true}
+			continue
+		}
+		if fn == nil {
+			results[i] = &FuncResult{Fn: k, Short: shortFuncName(k), OutOfSub: "function not found in the loaded program (contract cannot be bound)"}
 			continue
 		}
 		mu.Lock()
